@@ -633,8 +633,13 @@ def build_comb(pyrtl, case, blk, cfg=None, shared=None):
         return multipliers.fused_multiply_adder(xs[0], xs[1], xs[2], **mkw)
     if gen == 'generalized_fma':
         np_, na = cfg['npairs'], cfg['nadds']
-        pairs = [(xs[2 * i], xs[2 * i + 1]) for i in range(np_)]
-        adds = list(xs[2 * np_:])
+        if shared is not None and shared.get('fma_lists') is not None:
+            pairs, adds = shared['fma_lists']      # the caller's own lists, handed to both units
+        else:
+            pairs = [(xs[2 * i], xs[2 * i + 1]) for i in range(np_)]
+            adds = list(xs[2 * np_:])
+            if shared is not None:
+                shared['fma_lists'] = (pairs, adds)
         if len(adds) != na:
             raise HarnessError('generalized_fma operand layout')
         if cfg.get('empty_as_none'):
